@@ -89,6 +89,11 @@ def install():
             mod.threading = kernel.ThreadingShim
         if getattr(mod, "time", None) is _real_time:
             mod.time = kernel.TimeShim
+        # ... and every library module sees the simulated file system, not only the two that touch files today
+        if name.startswith("mysensors") and getattr(mod, "os", None) is os:
+            mod.os = simfs.DynOsShim
+        if name.startswith("mysensors"):
+            mod.open = simfs.FsHolder.open
     mysensors.task.timer = kernel.sim_timer
     mysensors.gateway_serial.serial = devices.SerialShim
     mysensors.gateway_serial.serial_asyncio = aio.SerialAsyncioShim
